@@ -177,13 +177,17 @@ theorem inv_upResp (c : Cfg) (ar aq : Nat) (s : S) (k code : Nat) (d t : Bool) (
       have h22 := K22_destroyStream c s k h.k22
       obtain ⟨k0, k1, k2, k3, k4, k5, k6, k7, k8, k9, k10, k11, k12, k13, k14, k15, k16, k17, k18, k19, k20, k21, k22, k23, k24, k25, k26, k27, k28, k29, k30, k31, k32⟩ := h
       refine ⟨k0, k1, k2, k3, k4, k5, k6, k7, k8, k9, hd.1, hd.2.1, k12, ?_, hd.2.2, ?_, k16, ?_, ?_, k19, ?_, k21, h22,
-        fun _ _ => allDead_liveCount hdead, k24, k25, k26, ?_, ?_, k29, ?_, k31, k32⟩
+        fun _ _ => allDead_liveCount hdead, k24, k25, ?_, ?_, ?_, k29, ?_, k31, k32⟩
       · intro hh; exact absurd hh (by simp [hcl])
       · intro _ hh; exact absurd hh (by simp [hup])
       · intro _ hh; exact absurd hh (by simp [hpre])
       · simp only [K18, processDone, destroyStream] at k18 ⊢
         grind
       · intro hh; exact absurd hh (by simp [how])
+      · intro _ hp
+        have := k23 hcl (Or.inr hp)
+        have hpos := liveCounted_pos s k hlc
+        omega
       · have hl0 := allDead_liveCount hdead
         have hpos := liveCounted_pos s k hlc
         have h27 := k27 hcl hfwd
@@ -376,7 +380,7 @@ theorem inv_globalFire (c : Cfg) (ar aq : Nat) (s : S) (h : Inv c ar aq s) : Inv
           · simpa [K25, upOnResetStream] using k25
           · intro _ hp
             have := (k26 hcl (by simpa [upOnResetStream] using hp)).1
-            exact ⟨by simpa [upOnResetStream] using this, fun _ => by simp [upOnResetStream]⟩
+            exact ⟨by simpa [upOnResetStream] using this, fun _ => by simp [upOnResetStream], fun _ => by simp [upOnResetStream, hsr]⟩
           · intro _ _ _; left; simp [upOnResetStream, hsr]
           · intro _ _; left; simp [upOnResetStream]
           · simpa [K29, upOnResetStream] using k29
